@@ -295,8 +295,8 @@ PROPS['C05'] = dict(
                'incl. checked arithmetic, zero divisor, shift-amount and nesting-limit failures and identifier lookup; (Kani, complete) '
                'each operator/function step of the same function equals an independent i128 div/mod twin for all i64 operands. '
                'Precedence, associativity and literal forms live in the PEG grammar and are only bound by native witnesses.',
-    level_note='assumes: grammar (precedence!/e_const), to_lowercase/checked_neg std contracts, str injectivity axiom; quotient value of / '
-               'is proved only in the thorough tier (4 min SAT), remainder value of % only on a bounded grid (CBMC gave up); log2 unspecified',
+    level_note='assumes: grammar (precedence!/e_const), to_lowercase/checked_neg std contracts, str injectivity axiom, the vstd '
+               'specification of checked_div/checked_rem (rust_div/rust_rem, proved here to be THE truncating quotient/remainder); log2 unspecified',
     technique='Verus recursion/termination proof against a spec interpreter + Kani per-operator step harnesses (recursion stubbed, R14)',
     verus=['expr'],
     kani=[dict(slice='exprstep', harnesses=_step_harnesses), dict(slice='conv', harnesses=_conv_harnesses)],
@@ -304,7 +304,8 @@ PROPS['C05'] = dict(
     functions=['Expr::run', 'Expr::run_nested', 'Expr::get_byte/get_bit_index/get_words/get_double_words/get_quad_words (src/expr.rs)'],
     explanation='eval() in contracts/expr.vspec is the oracle (operator table of the property); agrees(run(e), eval(e)) is proved by '
                 'induction on the tree with decreases (nesting budget, tree). The Kani step slice replaces the recursive calls by a stub '
-                'returning the child value (R14) and compares every operator with an independent twin for all 2^128 operand pairs.',
+                'returning the child value (R14) and compares every operator except / and % with an independent twin for all 2^128 operand pairs; / and % are pinned by Verus '
+                '(vstd rust_div/rust_rem, shown by lemma to be the unique q, r with a == q*b + r, |r| < |b|, sign(r) == sign(a)).',
     assumptions=[
         'grammar: precedence, associativity, literal radix forms are in peg::parser! (document.rs) -- outside both verifiers; bound only by '
         '2500 (quick) / 12000 (thorough) generated expressions (every operator on a boundary grid, every ordered operator pair without '
@@ -316,10 +317,84 @@ PROPS['C05'] = dict(
         'log2 is not in the operator table of the property: any outcome accepted (panic-freedom and termination of its loop are proved)',
     ],
     trusted=['spec/expr_sem.py (python twin used for the grammar witnesses)'],
-    bounded=['value of % (remainder): CBMC did not finish (>15 min) on the 64-bit divider; covered on a 15x15 boundary grid natively; its '
-             'failure conditions (zero divisor, MIN % -1) ARE proved by Verus',
-             'value of / (quotient): proved by Kani against the division theorem only in the thorough tier; quick: same grid'],
+    bounded=['bit-precise cross-check of / and %: no Kani harness (64-bit divider equivalences did not finish reliably: 4 min in one run, '
+             '> 25 min in another); their values are proved by Verus for all operands against vstd rust_div/rust_rem + lemmas '
+             'rust_divrem_is_truncating / trunc_unique / divrem_fits, and cross-checked on a 15x15 native boundary grid against spec/expr_sem.py'],
     not_decided=['precedence/associativity/literals (grammar): witnesses only'],
+)
+
+
+# ------------------------------------------------------------------------------------------------ C11
+def witnesses_c11(tier, seed):
+    import inc_sem
+    ws = inc_sem.witnesses(60 if tier == 'quick' else 600, seed or 4)
+    jobs = []
+    for name, job, exp in ws:
+        jobs.append(job)
+        jobs.append('build\n' + exp[1] if exp[0] == 'same_as' else 'build\nnop\n')
+    res = replay.run_jobs(jobs, timeout_per_job=30)
+    out = []
+    keys = ('status', 'code', 'eeprom', 'ram_filling', 'err')
+    for i, (name, job, exp) in enumerate(ws):
+        r, rf = res[2 * i], res[2 * i + 1]
+        obs = dict((k, r.get(k)) for k in keys if k in r)
+        if exp[0] == 'same_as':
+            if r.get('status') == 'ok' and rf.get('status') == 'ok':
+                ok = all(r.get(k) == rf.get(k) for k in ('code', 'eeprom', 'ram_filling'))
+            else:
+                ok = r.get('status') == 'err' and rf.get('status') == 'err'    # e.g. a file included twice defines a label twice: fails either way
+            out.append(WitnessResult('include:' + name, job, ok, dict(with_files=obs, pasted=dict((k, rf.get(k)) for k in keys if k in rf)),
+                                     'the same result as the program with the lines of every included file pasted in place:\n' + exp[1], 'inc/'))
+        elif exp[0] == 'err_naming':
+            ok = r.get('status') == 'err' and exp[1] in r.get('err', '')
+            out.append(WitnessResult('include:' + name, job, ok, obs, 'the build fails with an error naming %s' % exp[1], 'inc/'))
+        else:
+            out.append(WitnessResult('include:' + name, job, r.get('status') == 'err', obs, 'the build fails (no crash, no hang)', 'inc/'))
+    return out
+
+
+PROPS['C11'] = dict(
+    level_text='Proof (Verus, unbounded) over an assumed model of std::path / std::fs / BTreeSet<PathBuf>: parse_file_internal verbatim -- the file '
+               'is taken from a place the property allows (the path as written if a file is there, else the name joined to one of the known '
+               'directories where a file is; never anywhere else; found nowhere or unreadable => Err), its lines are parsed by the same line '
+               'loop on the SAME shared state handles (so it is a paste: everything defined inside is visible afterwards) with the search '
+               'paths known so far plus its own directory, the paths its .includepath lines add are known to the including file afterwards, '
+               'its own directory is not, nesting is budgeted (a file including itself fails instead of overflowing the stack); the '
+               '.include arm hands over exactly name / paths / handles / depth+1 and takes the added paths back; the .includepath arm adds '
+               'an absolute path as written and a relative one joined to the directory of the file the directive is in, and cannot panic; '
+               '.exit ends only the current text (unit DIR #exit + COND driver fold).',
+    level_note='"exactly the effect of pasting" across two whole parses is relational: decided only on generated include trees built on disk and '
+               'compared with their flattened text (bounded). Which of several directories holding the same name wins is left open, as in the '
+               'property. The model of paths (join / parent / is_relative uninterpreted) and of the file system is assumed, not verified.',
+    technique='Verus contracts on parse_file_internal and on the two directive arms lifted mechanically out of Directive::parse (R19), over an assumed std::path/fs model',
+    verus=['inc', 'dir', 'cond'],
+    witnesses=witnesses_c11,
+    functions=['parser::parse_file_internal', 'Directive::parse (Include arm, IncludePath arm: lifted by R19; Exit arm in unit DIR)', 'parser::parse_iter (EndFile)'],
+    explanation='found_ok / file_ctx / pfi_outcome / pfi_rel in contracts/inc.vspec are the oracle. ParseContext is extracted verbatim (only the Rc/RefCell '
+                'field types are renamed to opaque handle types), so the destructuring, both struct literals and the hand-over of every field '
+                'are the real text.',
+    assumptions=[
+        'std::path (PathBuf::from/push/parent/is_relative/as_path/to_path_buf, PartialEq), std::fs (exists, File::open, read_to_string), '
+        'BTreeSet<PathBuf> (iter, difference, get, insert, contains, clone) and RefCell (borrow, borrow_mut, replace, into_inner, clone) are '
+        'prelude stubs stating their documented behaviour over uninterpreted path_join / path_parent / path_is_relative / fs_exists / '
+        'fs_can_open / fs_readable / fs_content; the empty path names no file',
+        'A-fs: the file system does not change between exists() and File::open() of one lookup',
+        'A-alias (R9): the Rc handles (segments, macros, messages, symbol tables) are shared by every context of one build, so lines parsed '
+        'through a context built from the same handles act on the same state; the handles are opaque values here, only their hand-over is checked',
+        '`parse` (the line loop over one text, units COND/DIR) is a stub: its result and the search paths it leaves are uninterpreted functions '
+        'of (text, context value); precondition include_depth <= MAX_NESTED_INCLUDES, which parse_file_internal establishes',
+        'R18: `for x in set.iter()` / `a.difference(&b)` as an index loop over the materialised items (each element once, order unspecified)',
+        'R19: the two arms are lifted out of Directive::parse into functions whose parameters are the bindings of the destructured context',
+        'ParseContext::new / parse_file / parse_str (construction of the first context: depth 0, the given directories) are read, not verified',
+    ],
+    trusted=['spec/inc_sem.py (tree generator and flattening model of the documented search rule)'],
+    bounded=['15 fixed trees (definitions visible afterwards, .exit inside an included file, .includepath inside an included file, relative '
+             '.includepath in a subdirectory, caller-supplied relative and absolute directories, absolute .includepath, 12-deep nesting, the '
+             'same file twice, segments switched inside, missing file named in the error, self-inclusion and a cycle fail without crash, '
+             '.includepath with / as working directory) + 60 (quick) / 600 (thorough) generated trees with unique base names, every include '
+             'written in one of the documented ways, built on disk and compared with the flattened program'],
+    not_decided=['priority among several directories that hold a file of the same name (the property does not fix it)',
+                 'a `.includepath` executed inside a macro body stays local to that expansion (macro_expand clones the path set): not covered'],
 )
 
 
@@ -679,6 +754,12 @@ def witnesses_c16(tier, seed):
              '.device ATtiny10\n.dseg\n.byte 33\n', '(' * 300 + '\n', '.db ' + ','.join(['1'] * 5000) + '\n', '.include "/nonexistent/file.inc"\n',
              '.def a = r1\n.def b = a\n ldi b, 1\n', '.set s = s + 1\n', 'l: .dw l, l+1, l-1, l*l, l<<l\n']
     jobs += ['build\n' + m for m in multi]
+    # hostile include trees and working directories
+    multi_inc = ['tree main.asm \n@@ main.asm\nnop\n.include "main.asm"\n', 'tree a.asm \n@@ a.asm\n.include "b.asm"\n@@ b.asm\n.include "a.asm"\n',
+                 'tree m.asm \n@@ m.asm\n.macro m\n.include "m.asm"\n.endm\n m\n', 'buildcwd /\n.includepath "x"\n.include "nosuch"\n',
+                 'buildcwd /\n.includepath ""\n', 'tree d \n@@ d/x.asm\nnop\n', 'tree m.asm .. / @ROOT@\n@@ m.asm\n.includepath "/"\n.includepath ".."\n.include ""\n']
+    jobs += multi_inc
+    multi = multi + multi_inc
     res = replay.run_jobs(jobs, timeout_per_job=10)
     out = []
     bad = 0
@@ -692,15 +773,16 @@ def witnesses_c16(tier, seed):
 
 
 PROPS['C16'] = dict(
-    level_text='Proof, for every function under contract (15 units; see DESIGN.md section 11), with no precondition on user-controlled values: Verus '
+    level_text='Proof, for every function under contract (17 units; see DESIGN.md section 11), with no precondition on user-controlled values: Verus '
                'discharges every index, overflow, shift-amount, division, unwrap obligation and a decreases clause for every loop and recursion '
                '(Expr evaluation with its nesting budget, skip, parse_iter, pass 1/2 loops, the HEX writer); Kani checks the same panics in '
                'each of its harnesses; pass 1 stops at the device capacity so that pass 2 allocates at most the fragment lengths it proves. '
-               'The claim is exactly: from the parsed Document onward, minus pass 0 (macro expansion), file inclusion and main.rs.',
-    level_note='NOT under contract (bounded hostile-input witnesses only): action code inside the PEG grammar, pass0 (macro_expand / pass0_internal), '
-               'parse_file_internal, utility.rs, main.rs; stack depth of the generated recursive-descent parser on deeply nested parentheses',
+               'Macro expansion (pass0_internal) and file inclusion (parse_file_internal, the .include/.includepath arms) recurse under a '
+               'proved nesting budget. The claim is exactly: from the parsed Document onward, minus macro_expand (the textual substitution) and main.rs.',
+    level_note='NOT under contract (bounded hostile-input witnesses only): action code inside the PEG grammar, macro_expand, utility.rs, main.rs; '
+               'stack depth of the generated recursive-descent parser on deeply nested parentheses; std::path / std::fs calls are assumed not to panic',
     technique='panic-freedom and termination obligations generated by Verus/Kani for every extracted function (no preconditions on inputs)',
-    verus=['encv', 'expr', 'data', 'pass1', 'pass2', 'build', 'hex', 'ctxu', 'dir', 'cond'],
+    verus=['encv', 'expr', 'data', 'pass1', 'pass2', 'build', 'hex', 'ctxu', 'dir', 'cond', 'pass0', 'inc'],
     kani=[dict(slice='conv', harnesses=lambda tier: _conv_harnesses(tier)), dict(slice='dev', harnesses=lambda tier: _dev_harnesses(tier)),
           dict(slice='exprstep', harnesses=lambda tier: _step_harnesses(tier)), dict(slice='enc', harnesses=_enc_harnesses(), cex=_enc_cex)],
     cex_replay=_enc_witness_from_cex,
@@ -711,9 +793,10 @@ PROPS['C16'] = dict(
     assumptions=['preconditions that remain are structural facts proved by the producer (seg_wf2 from pass 1, wf of the parse context, device rows small)',
                  'machine memory bound mem_bound; slice length <= isize::MAX; usize = 64 bit'],
     bounded=['hostile-input witnesses: every mnemonic and directive with 0, 1 (38 texts), 2 (40 sampled / all 1444 pairs) and 3 sampled operands from a '
-             'dictionary of valid, boundary and hostile texts, plus 16 multi-line programs (cyclic .equ, self-calling macros, unbalanced blocks, '
-             'huge reservations, deep parentheses), run natively with crash/timeout detection'],
-    not_decided=['grammar action code, pass 0, file inclusion, CLI: witnesses only'],
+             'dictionary of valid, boundary and hostile texts, plus 23 multi-line programs and include trees (cyclic .equ, self-calling macros, '
+             'unbalanced blocks, huge reservations, deep parentheses, a file including itself directly / through another file / through a macro, '
+             '.includepath with / as working directory, a directory as main file), run natively with crash/timeout detection'],
+    not_decided=['grammar action code, macro_expand, CLI: witnesses only'],
 )
 
 
